@@ -154,3 +154,16 @@ Print Assumptions C15_total.
 Print Assumptions C15_model_is_the_source.
 Print Assumptions C15_pk_unmarshal_ok_iff.
 Print Assumptions C15_decompresssig_ok_iff.
+Print Assumptions C15_swap_involutive.
+Print Assumptions C15_le_roundtrip_bytes.
+Print Assumptions C15_hex_roundtrip.
+Print Assumptions C15_hexdecodeinto_total.
+Print Assumptions C15_pk_roundtrip.
+Print Assumptions C15_sigcomp_text_roundtrip.
+Print Assumptions C15_pkcomp_text_roundtrip.
+Print Assumptions C15_pk_scan_value.
+Print Assumptions C15_sigcomp_scan_ok_iff.
+Print Assumptions C15_pkcomp_scan_ok_iff.
+Print Assumptions C15_pk_scan_ok_iff.
+Print Assumptions C15_hexdecode_accepts_iff.
+Print Assumptions C15_lebytes_truncates.
